@@ -28,6 +28,11 @@ THEOREMS = [
     "PorepyVerif.C27.mortar_to_mortar_block_offsets",
     "PorepyVerif.C27.mortar_rejections",
     "PorepyVerif.C27.boundary_projection_is_restriction",
+    "PorepyVerif.C27.divergence_is_block_diagonal",
+    "PorepyVerif.C27.trace_is_block_placement",
+    "PorepyVerif.C27.trace_other_cases",
+    "PorepyVerif.C27.error_paths",
+    "PorepyVerif.C27.sign_block_offsets",
 ]
 LEAN_MODULES = ["PorepyVerif.C27.Props"]
 AUDIT = "PorepyVerif/C27/Audit.lean"
@@ -55,7 +60,11 @@ EXPLANATION = ("FULL: model = expand_indices_nd, the offset loops of _cell_proje
                "Trace, Divergence. Theorems: for ALL size lists, sub-lists, orders and dims the per-grid projections are consecutive "
                "ranges at prefix-sum offsets (disjoint, contiguous, covering), R(Pw)=w, P(Rv)=mask, permutation in list order, Kronecker "
                "structure i->i*dim+k, mortar blocks sit at (row offset of the subdomain, column offset of the interface), boundary "
-               "projection is a restriction with distinct targets. Correspondence compares every matrix exactly (shape + triplets).")
+               "projection is a restriction with distinct targets; Divergence = blockdiag(kron(div_p, I_dim)) and Trace = local traces "
+               "placed at (face offset, cell offset) of the listed subdomains in list order; sign_of_mortar_sides = per-interface +-1 "
+               "runs at the interface offsets (self-inverse); error_paths: IndexError iff a grid has no cells (cell version) / a grid of "
+               "positive dimension has no faces (face version), KeyError iff a requested grid is not listed, nothing else raises. "
+               "Correspondence compares every matrix exactly (shape + triplets).")
 ASSUMPTIONS = [
     "well-formed grid data (decidable, hypothesis of the theorems): every grid has >=1 cell; a 0-d grid has no faces, a grid of positive "
     "dimension has >=1 face; vector dimension >= 1; boundary face indices are distinct and < num_faces",
